@@ -24,6 +24,7 @@ ASSUMPTIONS = [
 ]
 OBLIGATIONS = {
     "history_sequences": "operation sequences (non-initial process states) explored",
+    "concurrent_first_calls": "interleavings of two concurrent first sign() calls explored",
     "draw_zero": "a nonce draw of 0 was offered (must be re-drawn)",
     "retry_r_zero": "a (curve,k) with x(kG) mod n == 0 was offered",
     "retry_s_zero": "a (d,z,k) with z + r*d == 0 mod n was offered",
@@ -180,9 +181,63 @@ def chk_bytes(case):
 CASES = {"sign": chk_sign, "bytes": chk_bytes}
 
 
+def _concur_setup(case):
+    """two threads each signing (the FIRST signing calls of the process image) - and their judge"""
+    import secrets
+    import bits.ecmath as em
+    C = _curve(case)
+    jobs_ = case["calls"]          # list of [d, z, k]
+
+    def mk(d, z, k):
+        def call_():
+            return em.sign(d, z)
+        return call_
+    # scripted draws per thread: the stub answers by thread identity (each thread gets its own k, then 1, 2, ...)
+    import threading
+    per = {}
+
+    def randbelow(bound):
+        t = threading.current_thread().name
+        st = per.setdefault(t, [0])
+        st[0] += 1
+        idx = int(t.split("-")[-1]) if t.split("-")[-1].isdigit() else 0
+        ks = [j[2] for j in jobs_]
+        base = ks[idx % len(ks)] if st[0] == 1 else st[0]
+        return base % bound
+
+    def judge(results, errors):
+        out = []
+        if errors:
+            return [("C01/concurrent/raised", f"a concurrent sign call raised: {errors}")]
+        for (d, z, k), rs in zip(jobs_, results):
+            if rs is None:
+                out.append(("C01/concurrent/no-result", "sign returned nothing"))
+                continue
+            r, s = rs
+            if not (1 <= r < C.n and 1 <= s <= C.n // 2) or not ecdsa_verify(C, r, s, C.mul(d, C.G), z):
+                out.append(("C01/concurrent/invalid-signature", f"sign(d={d}, z={z}) = ({r},{s}) does not verify when another sign call "
+                            f"is interleaved with it"))
+        return out
+    return [mk(*j) for j in jobs_], randbelow, judge
+
+
+def chk_concur(case):
+    import secrets
+    from vf import concur
+    calls, rb, judge = _concur_setup(case)
+    saved = secrets.randbelow
+    secrets.randbelow = rb
+    try:
+        return concur.replay_calls(calls, ("bits/ecmath.py",), case["choices"], judge)
+    finally:
+        secrets.randbelow = saved
+
+
 def run_case(kind, case):
     if kind == "reuse":
         return chk_reuse(case)
+    if kind == "concur":
+        return chk_concur(case)
     if kind == "seq":
         from vf import seqexplore
         return seqexplore.replay(run_case, case)
@@ -286,6 +341,8 @@ def jobs(tier, seed):
     js.append({"name": "secp/reuse", "part": "real-reuse", "weight": 10})
     from vf.runner import seq_jobs
     js += seq_jobs(4, curve=list(smallcurve.TABLE[0]), weight=4)
+    for i in range(4):
+        js.append({"name": f"concurrent-sign/{i}", "part": "concur", "curve": list(smallcurve.TABLE[0]), "idx": i, "weight": 6})
     return js
 
 
@@ -297,6 +354,24 @@ def run_job(job):
     part = job["part"]
     seed = job["seed"]
     cv = job.get("curve")
+    if part == "concur":
+        # two threads whose FIRST library calls are concurrent sign() calls: every interleaving with <= 1 (quick) /
+        # 2 (thorough) preemptions at line granularity of ecmath.py (fresh process image per job)
+        import secrets
+        from vf import concur
+        C = smallcurve.curve(cv)
+        pairs = [[[3, 5, 7], [11, 20, 2]], [[1, 0, 30], [30, 61, 1]], [[7, 7, 7], [7, 7, 7]], [[2, 33, 16], [29, 3, 15]]]
+        case = {"curve": cv, "calls": pairs[job["idx"]]}
+        calls, rb, judge = _concur_setup(case)
+        saved = secrets.randbelow
+        secrets.randbelow = rb
+        try:
+            ex = concur.explore_calls(acc, calls, ("bits/ecmath.py",), 1 if job["tier"] == "quick" else 2, judge, "concur", case)
+        finally:
+            secrets.randbelow = saved
+        acc.ob("concurrent_first_calls", ex.executions)
+        acc.sample({"concurrent_sign_calls": case["calls"], "executions": ex.executions})
+        return acc.result()
     if part == "small-sign":
         C = smallcurve.curve(cv)
         sh, nsh = job["shard"]
